@@ -294,11 +294,14 @@ func TestC10(t *testing.T) {
 				if mode == "single-fault" && r.Intn(2) == 0 {
 					plan = &sim.FaultPlan{Kind: "fail", Index: 1 + r.Intn(24)}
 				}
+				if pluginLayer && mode == "single-fault" && plan == nil && op.Kind == "realloc" {
+					plan = &sim.FaultPlan{Kind: "fail", Index: 1} // re-allocations of plugin-layer batches always carry a fault
+				}
 				if pluginLayer {
 					withSlots(rs, &op)
 					if plan != nil { // operations make about twice as many boundary calls with the plugin layer
 						plan.Index = 1 + rs.Intn(56)
-						if rs.Intn(3) == 0 { // aimed at the commit inside the resource manager: one plugin's usage write
+						if rs.Intn(3) == 0 || op.Kind == "realloc" { // aimed at the commit inside the resource manager: one plugin's usage write
 							plan.Match = "plugin." + []string{"cpumem", sim.SlotsName}[rs.Intn(2)] + ".SetNodeResourceUsage"
 							plan.Index = 1 + rs.Intn(2)
 						}
